@@ -42,8 +42,11 @@ class WsConnA:
         self.sent.append({'clk': self.sim.tick(), 't': self.sim.now,
                           'frame': frame})
         if isinstance(frame, (bytes, bytearray)):
-            ev = {'type': 'websocket.receive', 'bytes': bytes(frame),
-                  'text': None}
+            # (some servers / drivers hand out a mutable buffer; a scenario
+            # may ask for the frame to be passed on as it was given)
+            raw = getattr(self.sim, 'raw_bytearray', False)
+            ev = {'type': 'websocket.receive',
+                  'bytes': frame if raw else bytes(frame), 'text': None}
         else:
             ev = {'type': 'websocket.receive', 'text': frame, 'bytes': None}
         self.q.put_nowait(ev)
